@@ -204,7 +204,7 @@ def setup():
     print("contract harnesses:", n)
     # CPython cross-check of the symbolic executor on stdlib-only functions of the tree: a mismatch means the engine mis-models Python
     p = subprocess.run([sys.executable, os.path.join(ROOT, "tools", "engine_crosscheck.py")], cwd=ROOT, env=dict(os.environ), capture_output=True, text=True)
-    print((p.stdout.strip().splitlines() or [p.stderr[-300:]])[-1])
+    print("\n".join(l for l in p.stdout.strip().splitlines() if l.startswith("engine cross-check")) or p.stderr[-300:])
     if p.returncode != 0:
         print(p.stdout[-2000:])
         return 3
